@@ -343,6 +343,9 @@ def iwc_for(soil_spec, kind):
         return {"wc_type": "Pct", "method": "Layer", "depth_layer": layers, "value": [float(kind[3:])] * n}
     if kind == "Depth":
         return {"wc_type": "Pct", "method": "Depth", "depth_layer": [0.2, 0.6, 1.0], "value": [30.0, 70.0, 100.0]}
+    if kind == "DepthWetTop":
+        # a moist surface over a dry subsoil: the first compartments of the initial root zone straddle any irrigation threshold
+        return {"wc_type": "Pct", "method": "Depth", "depth_layer": [0.05, 0.25, 0.6], "value": [100.0, 20.0, 20.0]}
     raise ValueError(kind)
 
 
